@@ -82,6 +82,37 @@ def coincide(rng, t, m, how="parent"):
     return out, pairs
 
 
+# extra per-node columns (ESWC: level, feature_value, …; any keyword column of Tree(...)): the two trees of a concatenation need not store the
+# same column with the same dtype — integer labels in one file, fractional scores in the other, a mask against a count.  (dtype of tree1,
+# dtype of tree2 | None = tree2 does not have the column); the rota guarantees every kind in every run
+EXTRA_NAMES = ["level", "feature_value", "score", "label", "mask"]
+EXTRA_DTYPES = [("int64", "float64"), ("float32", "float32"), ("bool", "int64"), ("float64", "int32"), ("int32", "float32"), ("int32", None),
+                ("float32", "float64"), ("uint8", "int16"), ("int64", "bool"), ("bool", "float32"), ("int8", "int32"), ("int64", "int64"),
+                ("int16", "float64"), ("float64", None), ("float64", "float32")]
+
+
+def extra_kind(d1, d2):
+    if d2 is None:
+        return "absent2"
+    if d1 == d2:
+        return "same"
+    r = np.result_type(np.dtype(d1), np.dtype(d2))
+    return "narrower1" if r != np.dtype(d1) else "wider1"
+
+
+def extra_values(rng, dtype, n):
+    """n values that need the dtype: fractions for floats (float64: more digits than a float32 holds), the full range for integers"""
+    if dtype == "bool":
+        return [rng.random() < 0.5 for _ in range(n)]
+    if dtype == "float32":
+        return [rng.randint(-4000, 4000) / 8 + rng.choice([0.125, 0.25, 0.375, 0.75]) for _ in range(n)]
+    if dtype == "float64":
+        return [rng.randint(-4000, 4000) + rng.randrange(1, 2 ** 40) / 2 ** 40 for _ in range(n)]
+    bits = min(np.dtype(dtype).itemsize * 8, 48)       # every value exact as a float64 too
+    lo, hi = (0, 2 ** bits - 1) if dtype.startswith("u") else (-2 ** (bits - 1), 2 ** (bits - 1) - 1)
+    return [rng.choice([lo, hi, rng.randint(lo, hi), rng.randint(lo, hi), rng.randint(-3, 3) if lo < 0 else rng.randint(0, 3)]) for _ in range(n)]
+
+
 # node counts at which the arithmetic on ids changes its regime: n itself, or a product id * n, leaves an 8 / 15 / 16 / 31 / 32 bit integer
 # (the library keeps id / pid as int32, keys such as `pid * n + position` are a natural way to group or sort nodes)
 def size_steps():
@@ -377,6 +408,26 @@ class CatSuite(Suite):
                     case["big"] = True
                     case["how"] = BIG_HOW
                 out.append(case)
+        # extra per-node columns whose dtype differs between the two trees (or that tree2 lacks): the copy of tree2 keeps tree2's values
+        esizes = [1, 2, 3, 5, 8] + ([15, 40] if big else [])
+        rota = list(EXTRA_DTYPES); rng.shuffle(rota)
+        for e in range(len(rota) * (2 if big else 1)):
+            t1 = lattice(rng, rng.choice(esizes), gen.pick_shape(rng, k)); k += 1
+            t2 = lattice(rng, rng.choice(esizes[1:]), gen.pick_shape(rng, k), base=(40, 0, 0), key0=64.0); k += 1
+            if e % 3 == 2:
+                t2 = shuffle_all(rng, t2, key0=64.0)
+            a, b = rng.randrange(t1["n"]), rng.randrange(t2["n"])
+            mode = ["translate", "fixed", "fixed-touching"][e % 3]
+            if mode == "fixed-touching":
+                d = [t1["xyz"][a][c] - t2["xyz"][b][c] for c in range(3)]
+                t2 = dict(t2); t2["xyz"] = [[p[c] + d[c] for c in range(3)] for p in t2["xyz"]]
+            cols = []
+            for c, (d1, d2) in enumerate([rota[e % len(rota)]] + ([rng.choice(EXTRA_DTYPES)] if rng.random() < 0.4 else [])):
+                cols.append({"name": rng.choice(EXTRA_NAMES) + ("" if c == 0 else "_2"), "d1": d1, "v1": extra_values(rng, d1, t1["n"]),
+                             "d2": d2, "v2": None if d2 is None else extra_values(rng, d2, t2["n"])})
+            d1, d2 = rota[e % len(rota)]
+            out.append({"class": f"extra-column/{extra_kind(d1, d2)}/{d1}+{d2}/{mode}", "t1": t1, "t2": t2, "n1": a, "n2": b,
+                        "translate": mode == "translate", "extra": cols})
         return out
 
     def run(self, case):
@@ -386,6 +437,10 @@ class CatSuite(Suite):
         a, b = gen.make_tree(t1), gen.make_tree(t2)
         a.ndata["tag"] = (1000.0 + np.arange(t1["n"])).astype(np.float32)
         b.ndata["tag"] = (5000.0 + np.arange(t2["n"])).astype(np.float32)
+        for c in case.get("extra", []):
+            a.ndata[c["name"]] = np.array(c["v1"], dtype=c["d1"])
+            if c["d2"] is not None:
+                b.ndata[c["name"]] = np.array(c["v2"], dtype=c["d2"])
         before = [{k: v.copy() for k, v in t.ndata.items()} for t in (a, b)]
         sp = case.get("spelling", "kw")
         with warnings.catch_warnings():
@@ -399,6 +454,7 @@ class CatSuite(Suite):
         return {"pid": y.pid().tolist(), "id": y.id().tolist(), "type": y.type().tolist(), "r": [float(v) for v in y.r()],
                 "tag": [float(v) for v in y.get_ndata("tag")] if "tag" in y.keys() else None,
                 "xyz": y.xyz().astype(float).tolist(),
+                "extra": {c["name"]: [float(v) for v in y.get_ndata(c["name"])] if c["name"] in y.keys() else None for c in case.get("extra", [])},
                 "inputs_unchanged": bool(all(np.array_equal(before[i][k], t.ndata[k]) for i, t in enumerate((a, b)) for k in before[i]))}
 
     def _src(self, case, res):
@@ -464,6 +520,18 @@ class CatSuite(Suite):
                 out.append(("cat-types", f"type of tree1 node {o} changed")); break
         if res.get("tag") != [(1000.0 if s_ == 1 else 5000.0) + o for s_, o in src]:
             out.append(("cat-attrs", f"the extra per-node column does not follow its nodes: {str(res.get('tag'))[:80]} for nodes {src[:8]}"))
+        # "contains the first tree unchanged and a copy of the second tree": every node carries the attribute values of the node it comes from
+        # (a column that tree2 does not have is judged on tree1's nodes only)
+        for c in case.get("extra", []):
+            got_c = (res.get("extra") or {}).get(c["name"])
+            if not isinstance(got_c, list) or len(got_c) != len(src):
+                out.append(("cat-attr-values", f"column {c['name']!r} of the result: {str(got_c)[:60]} for {len(src)} nodes")); break
+            bad = [(s_, o, got_c[j], (c["v1"] if s_ == 1 else c["v2"])[o]) for j, (s_, o) in enumerate(src)
+                   if (s_ == 1 or c["v2"] is not None) and got_c[j] != float((c["v1"] if s_ == 1 else c["v2"])[o])]
+            if bad:
+                s_, o, g, w = bad[0]
+                out.append(("cat-attr-values", f"column {c['name']!r} (tree1 {c['d1']}, tree2 {c['d2']}): node {o} of tree{s_} carries {g} in the result, "
+                                               f"{w} in the input ({len(bad)} of {len(src)} nodes differ; {what}, translate={case['translate']})")); break
         # edges: tree1's edges, tree2's undirected edges, the junction; nothing else
         E = set()
         for i, p in enumerate(t1["pids"]):
